@@ -214,3 +214,56 @@ package auth
 //@   at-return {C14} [pattern-by-table-prefix] when a != AllActions && len(a) > 0 && a[len(a) - 1] == '*' :: \
 //@        ensures *ret0 <==> (exists act Action :: in(act, supportedObjectActionList) && strings.HasPrefix(act, strings.TrimSuffix(a, "*")))
 //@   loop 1 invariant {C14} [visited-none-has-the-prefix] forall act Action :: visited(supportedObjectActionList, act) ==> !strings.HasPrefix(act, strings.TrimSuffix(a, "*"))
+
+// ---- C17: the account cache mirrors what the admin calls did ---------------------------------------
+// View of the cache: the map access key -> (account, expiry). Every operation states the whole view:
+// the touched key and "every other key is as before".
+//@ func updateAcc
+//@   frame none
+//@   ensures {C17} [secret] acc.Secret == ite(props.Secret != nil, old(*props.Secret), old(acc.Secret))
+//@   ensures {C17} [user-id] acc.UserID == ite(props.UserID != nil, old(*props.UserID), old(acc.UserID))
+//@   ensures {C17} [group-id] acc.GroupID == ite(props.GroupID != nil, old(*props.GroupID), old(acc.GroupID))
+//@   ensures {C17} [identity-kept] acc.Access == old(acc.Access) && acc.Role == old(acc.Role)
+
+//@ func (*icache) set
+//@   modifies maps
+//@   requires {C17} [well-formed] i.items != nil
+//@   ensures {C17} [entry-is-the-account] in(k, i.items) && i.items[k].value == v
+//@   ensures {C17} [other-keys-untouched] forall q string :: q != k ==> (in(q, i.items) <==> old(in(q, i.items))) && i.items[q] == old(i.items[q])
+//@ func (*icache) Delete
+//@   modifies maps
+//@   requires {C17} [well-formed] i.items != nil
+//@   ensures {C17} [entry-gone] !in(k, i.items)
+//@   ensures {C17} [other-keys-untouched] forall q string :: q != k ==> (in(q, i.items) <==> old(in(q, i.items))) && i.items[q] == old(i.items[q])
+//@ func (*icache) update
+//@   modifies maps
+//@   requires {C17} [well-formed] i.items != nil
+//@   ensures {C17} [present-entry-updated] old(in(k, i.items)) ==> in(k, i.items) \
+//@        && i.items[k].value.Secret == ite(props.Secret != nil, old(*props.Secret), old(i.items[k].value.Secret)) \
+//@        && i.items[k].value.UserID == ite(props.UserID != nil, old(*props.UserID), old(i.items[k].value.UserID)) \
+//@        && i.items[k].value.GroupID == ite(props.GroupID != nil, old(*props.GroupID), old(i.items[k].value.GroupID)) \
+//@        && i.items[k].value.Access == old(i.items[k].value.Access) && i.items[k].value.Role == old(i.items[k].value.Role)
+//@   ensures {C17} [absent-stays-absent] !old(in(k, i.items)) ==> !in(k, i.items)
+//@   ensures {C17} [other-keys-untouched] forall q string :: q != k ==> (in(q, i.items) <==> old(in(q, i.items))) && i.items[q] == old(i.items[q])
+//@ func (*icache) get
+//@   requires {C17} [well-formed] i.items != nil
+//@   frame none
+//@   ensures {C17} [hit-is-the-cached-account] ret1 ==> in(k, i.items) && ret0 == i.items[k].value
+
+// the admin-facing operations: after an acknowledged call the cache agrees with it, in every field
+//@ func (*IAMCache) CreateAccount
+//@   requires {C17} [well-formed] c.iamcache != nil && c.iamcache.items != nil
+//@   ensures {C17} [cached-with-all-attributes] err == nil ==> in(account.Access, c.iamcache.items) && c.iamcache.items[account.Access].value == account
+//@ func (*IAMCache) DeleteUserAccount
+//@   requires {C17} [well-formed] c.iamcache != nil && c.iamcache.items != nil
+//@   ensures {C17} [deleted-account-not-cached] err == nil ==> !in(access, c.iamcache.items)
+//@ func (*IAMCache) UpdateUserAccount
+//@   requires {C17} [well-formed] c.iamcache != nil && c.iamcache.items != nil
+//@   ensures {C17} [cached-entry-follows-the-update] err == nil && old(in(access, c.iamcache.items)) ==> in(access, c.iamcache.items) \
+//@        && c.iamcache.items[access].value.Secret == ite(props.Secret != nil, old(*props.Secret), old(c.iamcache.items[access].value.Secret)) \
+//@        && c.iamcache.items[access].value.UserID == ite(props.UserID != nil, old(*props.UserID), old(c.iamcache.items[access].value.UserID)) \
+//@        && c.iamcache.items[access].value.GroupID == ite(props.GroupID != nil, old(*props.GroupID), old(c.iamcache.items[access].value.GroupID))
+//@   ensures {C17} [update-does-not-resurrect] err == nil && !old(in(access, c.iamcache.items)) ==> !in(access, c.iamcache.items)
+//@ func (*IAMCache) GetUserAccount
+//@   requires {C17} [well-formed] c.iamcache != nil && c.iamcache.items != nil
+//@   ensures {C17} [miss-caches-the-service-answer] err == nil ==> in(access, c.iamcache.items) && (ret0 == c.iamcache.items[access].value)
